@@ -30,6 +30,7 @@ func runC25(c *Ctx) {
 	c.Rule("reader-stems-agree", "getter and destination field names agree; int/float branches read their own fields", 2)
 	c.Rule("symbols-from-same-builder", "references come from the builder whose table is serialised", 3)
 	c.Rule("decode-target-reset", "every reused field of the destination is reset before a successful return", 1)
+	c.Rule("writer-complete-on-every-path", "no success return in front of a later setter in the capnp writer", 8)
 	p := c.Load("pkg/receive/writecapnp", "pkg/store/storepb/prompb", "pkg/store/labelpb")
 	if p == nil {
 		return
@@ -56,6 +57,59 @@ func runC25(c *Ctx) {
 	if len(writer) == 0 || len(reader) == 0 {
 		c.Incomplete("source-fields-marshalled", rel, "", "marshal.go / write_request.go functions not found")
 		return
+	}
+
+	// (0) field coverage is counted per function, so it must hold on every successful path: in the writer no
+	// `return nil` may sit in front of a later setter / sub-marshaller call of the same function — an early
+	// success return ("nothing more to encode") silently leaves those fields at their zero value.
+	for _, fn := range writer {
+		info := fn.Info()
+		if errResultOfFn(fn) < 0 {
+			continue
+		}
+		var last token.Pos
+		inspectNoLit(fn.Body(), func(nd ast.Node) bool {
+			call, ok := nd.(*ast.CallExpr)
+			if !ok {
+				return true
+			}
+			sel, ok := unparen(call.Fun).(*ast.SelectorExpr)
+			isSetter := ok && (strings.HasPrefix(sel.Sel.Name, "Set") || strings.HasPrefix(sel.Sel.Name, "New")) && info.Selections[sel] != nil
+			isMarshal := false
+			if f := calleeOf(info, call); f != nil && f.Pkg() == pk.Types && strings.HasPrefix(f.Name(), "marshal") {
+				isMarshal = true
+			}
+			if (isSetter || isMarshal) && call.Pos() > last {
+				last = call.Pos()
+			}
+			return true
+		})
+		bad, where := "", p.Pos(fn.Decl.Pos())
+		inspectNoLit(fn.Body(), func(nd ast.Node) bool {
+			ret, ok := nd.(*ast.ReturnStmt)
+			if !ok || len(ret.Results) == 0 || !isNil(info, ret.Results[len(ret.Results)-1]) || ret.Pos() > last {
+				return true
+			}
+			// "the whole input list is empty" is the one legitimate reason: `if len(<slice parameter>) == 0 { return nil }`
+			for _, g := range guardsOf(p, fn, ret) {
+				if be, ok := unparen(g.Cond).(*ast.BinaryExpr); ok && g.Pol && be.Op == token.EQL {
+					if call, ok := unparen(be.X).(*ast.CallExpr); ok && len(call.Args) == 1 && canon(call.Fun) == "len" && canon(be.Y) == "0" {
+						if id, ok := unparen(call.Args[0]).(*ast.Ident); ok {
+							if v, ok := objOf(info, id).(*types.Var); ok && !v.IsField() && paramWhere(fn, func(string) bool { return true }) != "" {
+								for _, pn := range namesOf(fn).Params {
+									if pn == id.Name {
+										return true
+									}
+								}
+							}
+						}
+					}
+				}
+			}
+			bad, where ="`return nil` at "+p.Pos(ret.Pos())+" leaves the function before the setter / marshal call at "+p.Pos(last), p.Pos(ret.Pos())
+			return true
+		})
+		c.Check(bad == "", "writer-complete-on-every-path", rel+"."+fn.Name, where, "early-success-return-before-setter", bad+": the fields written after it keep their zero value on that path")
 	}
 
 	// (1)
